@@ -53,8 +53,11 @@ func (c *RawHTTPResponder) AddHeader(name string, value string) {
 
 func (c *RawHTTPResponder) SetHeaders(headers http.Header) {
 	for key, values := range headers {
+		// Replace the field as a whole, keeping every value of a multi-valued field
+		// (Set-Cookie, Link, Vary, ...) in order. Setting value by value kept only the last one.
+		c.response.Header.Del(key)
 		for _, value := range values {
-			c.SetHeader(key, value)
+			c.AddHeader(key, value)
 		}
 	}
 }
